@@ -78,6 +78,17 @@ def run(ctx):
         exprs = [{"conj": [[u, 1] for u in r]} if len(r) > 1 else {"eq": [r[0], 1]} for r in rows]
         ans = ctx.model({"op": "oracle", "prov": {"nUnits": n_units, "exprs": exprs}, "labels": labels, "dist": [str(x) for x in dist], "K": K, "c": c,
                          "numtuples": max(n_units - 1, 0), "queries": [[u, [bw, bwo]] for u, bw, bwo in queries], "spec": it % 4 == 0})
+        # raw compiled diagram (recorded only: a different but equivalent node numbering would be harmless)
+        if oracle is not None and ctx.driver is not None and it % 3 == 0:
+            try:
+                mc = ctx.model({"op": "compile", "prov": {"nUnits": n_units, "exprs": exprs}, "dom": dom})
+                a = oracle._add
+                raw = dict(units=[int(u) for u in a.units], root=int(a.root), nodes=a.nodes.tolist(), child=a.child.tolist())
+                if mc is not None and "ok" in mc:
+                    same = all(mc["ok"]["add"][k] == raw[k] for k in raw)
+                    ctx.dist["compiled_diagram_identical_to_model=%s" % same] += 1
+            except Exception:  # noqa
+                ctx.dist["compiled_diagram_compare_failed"] += 1
         shared = any(len(r) >= 2 for r in rows) or len({u for r in rows for u in r}) < sum(len(r) for r in rows)
         positive_tallies = set()
         bad = False
